@@ -114,6 +114,19 @@ impl WorldB {
                 s.allow.push((norm_coins(&al.balance.0), al.expires));
                 s.perms.push((pe.delegate, pe.redelegate, pe.undelegate, pe.withdraw));
             }
+            let chain = &self.chain;
+            s.listed_allow = crate::snaps::page_keys(&|cur| {
+                chain
+                    .query::<cw1_subkeys::msg::AllAllowancesResponse>(label, &json!({"all_allowances":{"start_after":cur,"limit":30}}))
+                    .ok()
+                    .map(|r| r.allowances.into_iter().map(|a| a.spender).collect())
+            });
+            s.listed_perms = crate::snaps::page_keys(&|cur| {
+                chain
+                    .query::<cw1_subkeys::msg::AllPermissionsResponse>(label, &json!({"all_permissions":{"start_after":cur,"limit":30}}))
+                    .ok()
+                    .map(|r| r.permissions.into_iter().map(|a| a.spender).collect())
+            });
         }
         Some(s)
     }
@@ -582,6 +595,24 @@ impl WorldB {
             self.viol(out, "C07", "unexpected-dispatch", json!({"call": kind}), format!("{} emitted messages", kind));
         }
         // tables (subkeys)
+        if is_sk && !is_admin {
+            // C17: which spenders have an allowance / permission record at all is for admins to decide
+            for (what, a, b) in [("allowance", &pre.listed_allow, &post.listed_allow), ("permissions", &pre.listed_perms, &post.listed_perms)] {
+                if let (Some(a), Some(b)) = (a, b) {
+                    if a != b {
+                        let gained: Vec<&String> = b.iter().filter(|x| !a.contains(x)).collect();
+                        let lost: Vec<&String> = a.iter().filter(|x| !b.contains(x)).collect();
+                        self.viol(
+                            out,
+                            "C17",
+                            "records-listed-changed-by-non-admin",
+                            json!({"table": what, "gained": !gained.is_empty(), "lost": !lost.is_empty()}),
+                            format!("{} by {}: {} records listed changed; new: {:?}, gone: {:?}", kind, role, what, gained, lost),
+                        );
+                    }
+                }
+            }
+        }
         if is_sk {
             for i in 0..n {
                 let amounts_ok = post.allow[i].0 == exp_allow[i].0
